@@ -115,7 +115,7 @@ PROPS = {
   "technique": "Coq inductive invariant over all operation sequences + differential replay",
  },
  "C05": {
-  "tests": ["TestC05", "TestC05Races", "TestC05Stress", "TestC03Stress", "TestC05Constructors"],
+  "tests": ["TestC05", "TestC05Races", "TestC05Stress", "TestC03Stress", "TestC05Constructors", "TestC05Bare"],
   "rule": "default limiter over all four strategy kinds with a scripted limit double (estimates 0, negative, repeated, large), random histories plus closing bursts that fill and close windows "
           "at instants around the period end; after every forwarded window the strategy limit and every share are checked; a real-time replay of two overlapping window updates with a slow strategy; non-trivial = a distinct closed window",
   "level_text": "C05_sync_init, C05_sync_update (same step as the forwarded sample), C05_shares_follow (SetLimit keeps the invariant 'every live bin has the share of the current total').",
@@ -159,7 +159,7 @@ PROPS = {
   "technique": "Coq theorem + kernel-checked refutations + differential replay",
  },
  "C13": {
-  "tests": ["TestC13"],
+  "tests": ["TestC13", "TestC13CtxDeadline"],
   "rule": "as C10 with time steps aimed at due-1/due/due+1 of every timer and at the deadline instant, cancellations at arbitrary instants, already-cancelled contexts; every refusal of a caller that "
           "had been blocked must happen exactly at its bound, none may stay blocked past it; non-trivial = a bounded refusal / an already-cancelled arrival",
   "level_text": "C13_cancelled_ctx, C13_after_deadline, C13_wait_timer (arrival-time refusals hold no capacity; a waiter's timer is armed at exactly its bound), C13_queue_timeout, "
